@@ -22,9 +22,12 @@ WalkLimit = kwalk.WalkLimit
 
 
 class Extract:
-    def __init__(self, F, rep, fn, class_table):
+    def __init__(self, F, rep, fn, class_table, extra_cuts=(), byte_table=None):
         self.F, self.rep, self.fn, self.body = F, rep, fn, fn.body
         self.class_table = class_table      # closure fn -> rows [((a,b), {0/1})]
+        self.byte_table = byte_table        # closure over u8 -> rows (optional)
+        self.extra_cuts = tuple(extra_cuts)
+        self.byte_closures = {}
         self.closures = {}                  # qname -> rows
         self.atoms = []                     # human-readable list of the atoms met
         self._collect_closures()
@@ -46,10 +49,13 @@ class Extract:
                         aty = clo.body.ty(aty["t"]) if "t" in aty else clo.body.ty(aty["e"])
                     if aty.get("s") == "char":
                         self.closures[q] = self.class_table(clo)
+                    elif aty.get("s") == "u8" and self.byte_table is not None:
+                        self.byte_closures[q] = self.byte_table(clo)
 
     def _alphabet(self):
         cuts = {0, 0x80, 0x800, 0x10000, 0xD800, 0xE000, 0x110000}
         cuts.update(range(0, 0x81))
+        cuts.update(self.extra_cuts)
         for rows in self.closures.values():
             for (a, b), _ in rows:
                 cuts.add(a)
@@ -76,6 +82,22 @@ class Extract:
             elif v != {0}:
                 raise WalkLimit("closure %s: not a function of the class on U+%04X..U+%04X" % (q, a, b))
         return frozenset(yes)
+
+    def byte_class_syms(self, q):
+        """characters whose UTF-8 encoding contains a byte the u8-closure accepts; only decided when the closure accepts no
+        byte >= 0x80 (then exactly the accepted ASCII characters)"""
+        rows = self.byte_closures.get(q)
+        if rows is None:
+            raise WalkLimit("closure %s is not a byte-class closure" % q)
+        yes = set()
+        for (ra, rb), vals in rows:
+            if vals - {0, 1} or len(vals) != 1:
+                raise WalkLimit("byte closure %s: undecided on %02X..%02X" % (q, ra, rb))
+            if vals == {1}:
+                if rb >= 0x80:
+                    raise WalkLimit("byte closure %s accepts bytes >= 0x80 (multi-byte characters are not modelled)" % q)
+                yes.update(range(ra, rb + 1))
+        return frozenset(i for i, (a, b) in enumerate(self.al.ranges) if a == b and a in yes)
 
     # ---- phase 2: abstract evaluation ------------------------------------------------------------------------------
     def _deref_ty(self, t):
@@ -210,6 +232,10 @@ class Extract:
             return ("blen",)
         if n == "<str>::chars" and xs[0] == S:
             return ("chars",)
+        if n in ("<str>::bytes", "<str>::as_bytes") and xs[0] == S:
+            return ("bytes",)
+        if n in ("<[T]>::iter", "core::iter::traits::collect::IntoIterator::into_iter") and xs[0] == ("bytes",):
+            return ("bytes",)
         if n in ("core::cmp::PartialEq::eq", "core::cmp::PartialEq::ne") and S in xs:
             other = xs[1] if xs[0] == S else xs[0]
             d = DFA.literal(al, lit_of(other))
@@ -228,8 +254,8 @@ class Extract:
             it, clo = xs[0], xs[1]
             if not (clo and clo[0] == "closure"):
                 raise WalkLimit("%s: predicate is not a closure literal" % n)
-            if it == ("chars",):
-                syms = self.class_syms(clo[1])
+            if it in (("chars",), ("bytes",)):
+                syms = self.class_syms(clo[1]) if it == ("chars",) else self.byte_class_syms(clo[1])
                 if n.endswith("::all"):
                     self.atoms.append("all(%s)" % clo[1].rsplit("::", 1)[-1])
                     return ("bool", DFA.every_char_in(al, syms))
@@ -265,6 +291,8 @@ class Extract:
                 d = d | DFA.literal(al, lit_of(v))
             self.atoms.append("contains over %d literals" % len(xs[0][1]))
             return ("bool", d)
+        if getattr(self, "tolerant", False):
+            return ("opaque", n)
         raise WalkLimit("call to %s (resolved %s) is not a modelled string atom" % (n, r))
 
     def list_closure(self, clo):
@@ -289,8 +317,11 @@ class Extract:
             return False
         raise WalkLimit("list closure %s calls %s" % (clo[1], n))
 
-    def run(self):
+    def run(self, sinks=None):
+        """language accepted (fn returns true).  With `sinks` (a set of block numbers) returns {bb: language of the inputs that
+        reach bb} instead, and blocks inside MIR loops are cut off (the inputs reaching a loop are not followed further)."""
         body = self.body
+        self.tolerant = sinks is not None
         nb = len(body.blocks)
         # topological order over normal edges
         succs = {}
@@ -331,7 +362,16 @@ class Extract:
                 if indeg[q] == 0:
                     ready.append(q)
         if len(order) != len(reach):
-            raise WalkLimit("%s has a loop at MIR level; only loop-free string predicates are decided" % self.fn.q)
+            if sinks is None:
+                raise WalkLimit("%s has a loop at MIR level; only loop-free string predicates are decided" % self.fn.q)
+            # cut the blocks that lie on cycles (everything Kahn's algorithm could not order) and redo the order without them
+            cyc = reach - set(order)
+            for p in list(succs):
+                succs[p] = [q for q in succs[p] if q not in cyc]
+            for c in cyc:
+                succs[c] = []
+            order = [b for b in order]
+        reached = {}
 
         al = self.al
         EMPTY = DFA.nothing(al)
@@ -361,6 +401,11 @@ class Extract:
             if bb not in lang or not lang[bb]:
                 continue
             langs = lang[bb]
+            if sinks is not None and bb in sinks:
+                tot = EMPTY
+                for d0 in langs.values():
+                    tot = tot | d0
+                reached[bb] = tot
             env = dict(envs[bb])
             blk = body.blocks[bb]
             for st in blk["s"]:
@@ -368,8 +413,15 @@ class Extract:
                     continue
                 l = st["p"]["l"]
                 if st["p"]["p"]:
+                    if self.tolerant:
+                        continue
                     raise WalkLimit("store through a projection in %s" % self.fn.q)
-                v = self.rvalue(env, st["rv"])
+                try:
+                    v = self.rvalue(env, st["rv"])
+                except WalkLimit:
+                    if not self.tolerant:
+                        raise
+                    v = ("opaque", "rvalue")
                 if v == CONFLICT:
                     raise WalkLimit("value merged from different paths is used in %s bb%d" % (self.fn.q, bb))
                 if l == 0:
@@ -383,7 +435,7 @@ class Extract:
                         for d in langs.values():
                             total = total | d
                         langs = {1: total & v[1], 0: total & v[1].complement()}
-                    else:
+                    elif not self.tolerant:
                         raise WalkLimit("return place assigned %r" % (v and v[0],))
                 else:
                     env[l] = v
@@ -394,11 +446,19 @@ class Extract:
             elif k in ("drop", "assert"):
                 send(t["t"], langs, env)
             elif k == "call":
-                v = self.call(env, t)
+                try:
+                    v = self.call(env, t)
+                except WalkLimit:
+                    if not self.tolerant:
+                        raise
+                    v = ("opaque", "call")
                 d = t["dst"]
                 if d["p"]:
-                    raise WalkLimit("call result stored through a projection")
-                if d["l"] == 0:
+                    if not self.tolerant:
+                        raise WalkLimit("call result stored through a projection")
+                elif d["l"] == 0 and self.tolerant and (not v or v[0] != "bool"):
+                    pass
+                elif d["l"] == 0:
                     if v[0] != "bool":
                         raise WalkLimit("non-boolean call result returned")
                     total = EMPTY
@@ -424,6 +484,8 @@ class Extract:
                 else:
                     raise WalkLimit("switch on %r" % (v[0],))
             elif k == "return":
+                if self.tolerant:
+                    continue
                 if None in langs and not langs[None].is_empty():
                     raise WalkLimit("return without a stored result")
                 accept = accept | langs.get(1, EMPTY)
@@ -432,6 +494,8 @@ class Extract:
                 pass
             else:
                 raise WalkLimit("terminator %s" % k)
+        if sinks is not None:
+            return reached
         # sanity: accept and reject partition Sigma*
         both = accept & reject
         if not both.is_empty():
